@@ -10,6 +10,7 @@ import RactorModel.Lemmas.HandshakeFail
 import RactorModel.Lemmas.HandshakeRefineB
 import RactorModel.Lemmas.Reconnect
 import RactorModel.Lemmas.HandshakePre
+import RactorModel.Lemmas.HandshakeReady
 
 /-!
 # C18 — duplicate connections converge on one and the same link
@@ -704,6 +705,252 @@ theorem generated_elect_sessions_covers_model (this peer : String) (cs : List El
   rw [generated_elect_sessions_eq_model, map_abs_conc]
 end XlateTie
 
+/-! ### ready events: the lower bound (wave 2) -/
+
+/-- **The link both nodes hold IS reported ready, on both nodes** (lower bound to
+`one_live_ready_session_per_peer`; together: EXACTLY one live ready session per peer). Any run of
+late dials, election steps, failing ends and ready steps, in any order. If the run is at rest
+(`hsQuiescent`), a connection between the two nodes is still up (`openOnA … ≠ []`: no failure took
+the last link) and both `NodeServer`s have been scheduled (`readyQuiescent`: every ready step
+enabled now has been taken — the fairness assumption, stated on the state), then there is ONE
+connection `c` such that both nodes hold exactly `[c]`, `c`'s session on A is in A's log and live,
+`c`'s session on B is in B's log and live, and NO other session is live-ready on either node. The
+guard `is_elected` of the ready step is not assumed to hold for `c`: it is derived (at rest the
+authenticated open sessions are `[c]`, and a single candidate is elected). -/
+theorem the_link_is_reported_ready_on_both_nodes (o : Ordering) (ho : o ≠ .eq) (ops : List ROp)
+    (hA : ((fDials (rProj ops)).map (·.idA)).Nodup) (hB : ((fDials (rProj ops)).map (·.idB)).Nodup)
+    (hq : hsQuiescent (rRun o ops).w = true)
+    (hr : readyQuiescent o (rRun o ops) = true)
+    (hup : openOnA (rRun o ops).w ≠ []) :
+    ∃ c, openOnA (rRun o ops).w = [c] ∧ openOnB (rRun o ops).w = [c] ∧
+      c.idA ∈ liveReadyA (rRun o ops) ∧ c.idB ∈ liveReadyB (rRun o ops) ∧
+      (∀ a ∈ liveReadyA (rRun o ops), a = c.idA) ∧ (∀ b ∈ liveReadyB (rRun o ops), b = c.idB) := by
+  have hw := rRun_w o ops
+  have hq' : hsQuiescent (fRun o (rProj ops)) = true := by rw [← hw]; exact hq
+  obtain ⟨hAB, hlen⟩ := with_failures_never_two_links o ho (rProj ops) hA hB hq'
+  rw [← hw] at hAB hlen
+  match hL : openOnA (rRun o ops).w, hlen, hup with
+  | [c], _, _ =>
+    have hLB : openOnB (rRun o ops).w = [c] := by rw [← hAB, hL]
+    obtain ⟨h1, h2⟩ := ready_reported_at_rest o (rRun o ops) c hq hr hL hLB
+    refine ⟨c, rfl, hLB, h1, h2, ?_, ?_⟩
+    · intro a ha
+      obtain ⟨c', hc', rfl⟩ := liveReadyA_open _ a ha
+      rw [hL] at hc'; simp only [List.mem_singleton] at hc'; rw [hc']
+    · intro b hb
+      obtain ⟨c', hc', rfl⟩ := liveReadyB_open _ b hb
+      rw [hLB] at hc'; simp only [List.mem_singleton] at hc'; rw [hc']
+  | [], _, hup => exact absurd rfl hup
+  | _ :: _ :: _, hlen, _ => simp at hlen
+
+/-- The same as lists: at rest, with a link up and both nodes scheduled, the DISTINCT live ready
+sessions of each node are exactly one — the end of the single link (the raw log may repeat it:
+a `NodeServer` that handles `ConnectionReady` twice reports twice). -/
+theorem exactly_one_live_ready_session_per_peer (o : Ordering) (ho : o ≠ .eq) (ops : List ROp)
+    (hA : ((fDials (rProj ops)).map (·.idA)).Nodup) (hB : ((fDials (rProj ops)).map (·.idB)).Nodup)
+    (hq : hsQuiescent (rRun o ops).w = true)
+    (hr : readyQuiescent o (rRun o ops) = true)
+    (hup : openOnA (rRun o ops).w ≠ []) :
+    ∃ c, openOnA (rRun o ops).w = [c] ∧ openOnB (rRun o ops).w = [c] ∧
+      (liveReadyA (rRun o ops)).eraseDups = [c.idA] ∧ (liveReadyB (rRun o ops)).eraseDups = [c.idB] := by
+  obtain ⟨c, h1, h2, h3, h4, h5, h6⟩ := the_link_is_reported_ready_on_both_nodes o ho ops hA hB hq hr hup
+  exact ⟨c, h1, h2, eraseDups_all_eq h3 h5, eraseDups_all_eq h4 h6⟩
+
+/-- **Without failures the premise "a link is up" is a theorem.** A run of late dials, election
+steps and ready steps only (no `failA` / `failB`), at least one dial: at rest, once both nodes have
+been scheduled, the winner `acc` of the full election over the connections dialled so far is the
+link both nodes hold, and it is the one and only live ready session on each node. -/
+theorem without_failures_the_winner_is_reported_ready (o : Ordering) (ho : o ≠ .eq) (ops : List ROp)
+    (hnf : ∀ op ∈ ops, op.noFail = true) (hne : fDials (rProj ops) ≠ [])
+    (hA : ((fDials (rProj ops)).map (·.idA)).Nodup) (hB : ((fDials (rProj ops)).map (·.idB)).Nodup)
+    (hq : hsQuiescent (rRun o ops).w = true)
+    (hr : readyQuiescent o (rRun o ops) = true) :
+    ∃ acc, IsWinner o (fDials (rProj ops)) acc ∧
+      openOnA (rRun o ops).w = [acc] ∧ openOnB (rRun o ops).w = [acc] ∧
+      acc.idA ∈ liveReadyA (rRun o ops) ∧ acc.idB ∈ liveReadyB (rRun o ops) ∧
+      (∀ a ∈ liveReadyA (rRun o ops), a = acc.idA) ∧ (∀ b ∈ liveReadyB (rRun o ops), b = acc.idB) := by
+  have hd := dials_rToD ops
+  have hwd := rRun_noFail o ops hnf
+  obtain ⟨_, hex, hall⟩ := late_dials_converge o ho (rToD ops) (by rw [hd]; exact hA) (by rw [hd]; exact hB)
+  rw [hd] at hex hall
+  obtain ⟨acc, hacc⟩ := hex hne
+  obtain ⟨_, hrest⟩ := hall acc hacc
+  rw [← hwd] at hrest
+  obtain ⟨eA, eB⟩ := hrest hq
+  obtain ⟨c, h1, h2, h3, h4, h5, h6⟩ :=
+    the_link_is_reported_ready_on_both_nodes o ho ops hA hB hq hr (by rw [eA]; simp)
+  have : c = acc := by rw [eA] at h1; simpa using h1.symm
+  subst this
+  exact ⟨c, hacc, h1, h2, h3, h4, h5, h6⟩
+
+/-- non-vacuity of the lower bound (all hypotheses hold on a concrete run, with a displaced link and a
+failing end that does not hit the winner), and necessity of the fairness hypothesis: the same run
+without node B's last ready step is at rest with the link up, and B has no live ready session. -/
+example :
+    let c0 : Conn := ⟨false, 9, 10, 20⟩
+    let c1 : Conn := ⟨false, 3, 11, 21⟩
+    let pre : List ROp := [.f (.dial c0), .f (.hs (.authA 10)), .f (.hs (.authB 20)), .readyA 10, .readyB 20,
+      .f (.dial c1), .f (.hs (.authA 11)), .f (.hs (.authB 21)), .f (.failA 10), .readyA 10, .readyA 11,
+      .f (.hs (.seeB 20))]
+    let s := rRun .gt (pre ++ [.readyB 21])
+    let s' := rRun .gt pre
+    (hsQuiescent s.w = true ∧ readyQuiescent .gt s = true ∧ openOnA s.w = [c1] ∧
+      liveReadyA s = [11] ∧ liveReadyB s = [21] ∧ s.logA = [10, 11] ∧ s.logB = [20, 21]) ∧
+    (hsQuiescent s'.w = true ∧ readyQuiescent .gt s' = false ∧ openOnA s'.w = [c1] ∧ liveReadyB s' = []) := by
+  decide
+
+/-- … and of the failure-free corollary -/
+example :
+    let c0 : Conn := ⟨false, 9, 10, 20⟩
+    let c1 : Conn := ⟨true, 3, 11, 21⟩
+    let ops : List ROp := [.f (.dial c0), .f (.dial c1), .f (.hs (.authA 10)), .f (.hs (.authB 20)),
+      .f (.hs (.authA 11)), .f (.hs (.authB 21)), .f (.hs (.seeB 21)), .readyA 10, .readyA 11, .readyB 20, .readyB 21]
+    ops.all ROp.noFail = true ∧ hsQuiescent (rRun .gt ops).w = true ∧ readyQuiescent .gt (rRun .gt ops) = true ∧
+    openOnA (rRun .gt ops).w = [c0] ∧ liveReadyA (rRun .gt ops) = [10] ∧ liveReadyB (rRun .gt ops) = [20] := by
+  decide
+
+/-! ### failures that spare the winner (wave 2) -/
+
+/-- **"At least one" is regained when no failure hits the winner.** Late dials, election steps and
+failing ends in any order (`fRun`), `acc` the winner of the full election over ALL connections the run
+dials, and no `failA acc.idA` / `failB acc.idB` anywhere in the run (every other end may fail at any
+time, before or after `acc` is dialled): no step of the run closes `acc`, and whenever the run is at
+rest both nodes hold exactly `[acc]`. (`with_failures_never_two_links` allows every failure and only
+gives "the same, at most one".) -/
+theorem failures_that_spare_the_winner_keep_the_link (o : Ordering) (ho : o ≠ .eq) (ops : List FOp)
+    (hA : ((fDials ops).map (·.idA)).Nodup) (hB : ((fDials ops).map (·.idB)).Nodup)
+    (acc : Conn) (hw : IsWinner o (fDials ops) acc) (hsp : ∀ op ∈ ops, op.spares acc = true) :
+    (∀ l ∈ fRun o ops, l.c = acc → l.openA = true ∧ l.openB = true) ∧
+    (hsQuiescent (fRun o ops) = true → openOnA (fRun o ops) = [acc] ∧ openOnB (fRun o ops) = [acc]) := by
+  have X : Ctx o (fDials ops) acc := ⟨ho, hA, hB, hw⟩
+  have I := fRun_spares_inv o ops acc X hsp
+  exact ⟨I.accOpen, I.quiescent X⟩
+
+/-- **The link is reported ready whenever no failure hits the winner** (lower bound with failures,
+run-level premise instead of "a link is up"). Late dials, election steps, failing ends that spare the
+winner `acc` of the election over all dials, and ready steps, in any order: at rest both nodes hold
+exactly `[acc]`, and once both `NodeServer`s have been scheduled (`readyQuiescent`) `acc`'s sessions
+are the one and only live ready session on each node. -/
+theorem winner_spared_by_failures_is_reported_ready (o : Ordering) (ho : o ≠ .eq) (ops : List ROp)
+    (hA : ((fDials (rProj ops)).map (·.idA)).Nodup) (hB : ((fDials (rProj ops)).map (·.idB)).Nodup)
+    (acc : Conn) (hw : IsWinner o (fDials (rProj ops)) acc) (hsp : ∀ op ∈ ops, op.spares acc = true)
+    (hq : hsQuiescent (rRun o ops).w = true) :
+    openOnA (rRun o ops).w = [acc] ∧ openOnB (rRun o ops).w = [acc] ∧
+    (readyQuiescent o (rRun o ops) = true →
+      acc.idA ∈ liveReadyA (rRun o ops) ∧ acc.idB ∈ liveReadyB (rRun o ops) ∧
+      (∀ a ∈ liveReadyA (rRun o ops), a = acc.idA) ∧ (∀ b ∈ liveReadyB (rRun o ops), b = acc.idB)) := by
+  have hwd := rRun_w o ops
+  obtain ⟨_, hrest⟩ := failures_that_spare_the_winner_keep_the_link o ho (rProj ops) hA hB acc hw
+    (rProj_spares acc ops hsp)
+  rw [← hwd] at hrest
+  obtain ⟨eA, eB⟩ := hrest hq
+  refine ⟨eA, eB, fun hr => ?_⟩
+  obtain ⟨c, h1, _, h3, h4, h5, h6⟩ :=
+    the_link_is_reported_ready_on_both_nodes o ho ops hA hB hq hr (by rw [eA]; simp)
+  have : c = acc := by rw [eA] at h1; simpa using h1.symm
+  subst this
+  exact ⟨h3, h4, h5, h6⟩
+
+/-- non-vacuity: the run of the example above — c1 (nonce 3) wins over c0 (nonce 9); `failA 10` hits
+c0 only, so every op spares c1 -/
+example :
+    let c0 : Conn := ⟨false, 9, 10, 20⟩
+    let c1 : Conn := ⟨false, 3, 11, 21⟩
+    let ops : List ROp := [.f (.dial c0), .f (.hs (.authA 10)), .f (.hs (.authB 20)), .readyA 10, .readyB 20,
+      .f (.dial c1), .f (.hs (.authA 11)), .f (.hs (.authB 21)), .f (.failA 10), .readyA 10, .readyA 11,
+      .f (.hs (.seeB 20)), .readyB 21]
+    ops.all (ROp.spares c1) = true ∧ fDials (rProj ops) = [c0, c1] ∧
+    hsQuiescent (rRun .gt ops).w = true ∧ readyQuiescent .gt (rRun .gt ops) = true ∧
+    openOnA (rRun .gt ops).w = [c1] ∧ liveReadyA (rRun .gt ops) = [11] ∧ liveReadyB (rRun .gt ops) = [21] := by
+  decide
+
+/-! ### lingering `node_sessions` entries (wave 2, `Model/HandshakeLinger.lean`) -/
+
+/-- **Safety does not depend on when the dead entries are removed.** Runs in which a closed session's
+`node_sessions` entry LINGERS until the node handles its `ActorTerminated` (`LOp.reapA/reapB`, at any
+later time or never) and in which the sessions' pre-authentication `CheckSession` is answered from the
+real table — lookup by (name, nonce) over open AND lingering entries (`LOp.preSA/preSB`) — together
+with late dials, election steps and failing ends: such a run moves the world exactly like some run of
+`fStep` over the same dials (the real-table pre-check is the `preA` step or nothing), hence at rest
+both nodes hold the same connections and at most one. -/
+theorem lingering_entries_never_two_links (o : Ordering) (ho : o ≠ .eq) (ops : List LOp)
+    (hA : ((lDials ops).map (·.idA)).Nodup) (hB : ((lDials ops).map (·.idB)).Nodup) :
+    (∃ fops : List FOp, (lRun o ops).w = fRun o fops ∧ fDials fops = lDials ops) ∧
+    (hsQuiescent (lRun o ops).w = true →
+      openOnA (lRun o ops).w = openOnB (lRun o ops).w ∧ (openOnA (lRun o ops).w).length ≤ 1) := by
+  obtain ⟨fops, h1, h2⟩ := lRun_is_fRun o ops
+  refine ⟨⟨fops, h1, h2⟩, fun hq => ?_⟩
+  rw [h1] at hq ⊢
+  exact with_failures_never_two_links o ho fops (by rw [h2]; exact hA) (by rw [h2]; exact hB) hq
+
+/-- **With wire-valid, pairwise distinct nonces the lingering entries are invisible.** At every
+moment of every such run whose dials carry non-zero, pairwise distinct nonces: the pre-check of an OPEN
+session answered from the real table (lingering entries included) is the pre-check of
+`Model/Handshake.lean` (`stepPreSA` / `stepPreSB`, closed sessions dropped at once) — whatever has
+been reaped or not. -/
+theorem lingering_entries_are_invisible_with_unique_nonces (o : Ordering) (ops : List LOp)
+    (hnz : ∀ c ∈ lDials ops, c.nonce ≠ 0) (hnd : ((lDials ops).map (·.nonce)).Nodup) :
+    (∀ a, (∀ l ∈ (lRun o ops).w, l.c.idA = a → l.openA = true) →
+      stepPreLA o (lRun o ops) a = stepPreSA o (lRun o ops).w a) ∧
+    (∀ b, (∀ l ∈ (lRun o ops).w, l.c.idB = b → l.openB = true) →
+      stepPreLB o (lRun o ops) b = stepPreSB o (lRun o ops).w b) := by
+  obtain ⟨fops, h1, h2⟩ := lRun_is_fRun o ops
+  have hc : (lRun o ops).w.map (·.c) = lDials ops := by rw [h1, fRun_conns, h2]
+  have hnz' : ∀ l ∈ (lRun o ops).w, l.c.nonce ≠ 0 := fun l hl =>
+    hnz l.c (by rw [← hc]; exact List.mem_map.mpr ⟨l, hl, rfl⟩)
+  have hnd' : ((lRun o ops).w.map (fun l => l.c.nonce)).Nodup := by
+    have : (lRun o ops).w.map (fun l => l.c.nonce) = ((lRun o ops).w.map (·.c)).map (·.nonce) := by
+      rw [List.map_map]; rfl
+    rw [this, hc]; exact hnd
+  exact ⟨fun a h => stepPreLA_unique_nonces o _ a hnz' hnd' h,
+         fun b h => stepPreLB_unique_nonces o _ b hnz' hnd' h⟩
+
+/-- **`check_session` and the lingering entries, on the `NodeServerState`.** Node A's real table
+(`nsOfLA`: an entry per open session and per closed, not yet reaped one — the latter not in
+`authenticated_sessions`) against the table of the handshake model (`nsOfA`: open sessions only), any
+state, any query nonce `n`:
+
+* the lingering entries are never election candidates;
+* `check_candidate` of an open session answers the same on both tables;
+* if no lingering entry carries the nonce `n`, `check_session(nameB, n)` answers the same on both;
+* if it differs at all it is because the lookup became ambiguous, and then the reply on the real table
+  is `NoOtherConnection` — a lingering entry can let a session continue, never stop one;
+* once everything closed has been reaped the lookups coincide. -/
+theorem check_session_sees_lingering_entries_only_through_their_nonce (nameA nameB : String) (s : LState)
+    (hnd : ((s.w.map (·.c)).map (·.idA)).Nodup) (n : Nat) :
+    (∀ peer, (nsOfLA nameA nameB s).candidatesFor peer true = (nsOfA nameA nameB s.w).candidatesFor peer true) ∧
+    (∀ l ∈ s.w, l.openA = true →
+      (nsOfLA nameA nameB s).checkCandidate l.c.idA = (nsOfA nameA nameB s.w).checkCandidate l.c.idA) ∧
+    ((∀ k ∈ s.w, s.lingersA k = true → nz k.c.nonce ≠ nz n) →
+      (nsOfLA nameA nameB s).checkSession nameB n = (nsOfA nameA nameB s.w).checkSession nameB n) ∧
+    ((nsOfLA nameA nameB s).matching nameB n = matchLA s n ∧
+      (2 ≤ (matchLA s n).length → (nsOfLA nameA nameB s).checkSession nameB n = .noOther)) ∧
+    (s.lingeringA = [] → matchLA s n = matchA s.w n) :=
+  ⟨nsOfLA_candidates nameA nameB s, fun l hl ho => checkCandidate_nsOfLA nameA nameB s hnd l hl ho,
+   checkSession_nsOfLA nameA nameB s n hnd,
+   ⟨nsOfLA_matching nameA nameB s n, checkSession_nsOfLA_ambiguous nameA nameB s n⟩,
+   matchLA_all_reaped s n⟩
+
+/-- the legacy-nonce window: `cl` (nonce 0) was closed on A and its entry lingers; `cw` (nonce 5) is up
+on A; `ca` (nonce 0) asks `CheckSession` before authenticating. On the real table the lookup finds
+`[10, 13]` — ambiguous, `NoOtherConnection`, `ca` carries on; after `reapA 10` (and in
+`Model/Handshake.lean`) the lookup finds `[13]`, `check_candidate` says another connection continues
+and `ca` is closed at once. Either way `ca` does not survive its own `commit_authenticated`. -/
+example :
+    let cl : Conn := ⟨false, 0, 10, 20⟩
+    let cw : Conn := ⟨false, 5, 12, 22⟩
+    let ca : Conn := ⟨false, 0, 13, 23⟩
+    let pre : List LOp := [.f (.dial cl), .f (.failA 10), .f (.dial cw), .f (.hs (.authA 12)), .f (.dial ca)]
+    let s := lRun .gt pre
+    (s.lingeringA = [10] ∧ matchLA s 0 = [10, 13] ∧ matchA s.w 0 = [13]) ∧
+    (stepPreLA .gt s 13 = s.w ∧ openOnA (stepPreLA .gt s 13) = [cw, ca]) ∧
+    (openOnA (stepPreSA .gt s.w 13) = [cw]) ∧
+    (openOnA (lRun .gt (pre ++ [.reapA 10, .preSA 13])).w = [cw]) ∧
+    (openOnA (lRun .gt (pre ++ [.preSA 13, .f (.hs (.authA 13))])).w = [cw]) ∧
+    ((nsOfLA "a@h" "b@h" s).checkSession "b@h" 0 = .noOther ∧
+     (nsOfA "a@h" "b@h" s.w).checkSession "b@h" 0 = .otherContinues) := by
+  decide
+
 end C18
 
 #print axioms C18.elect_order_independent
@@ -746,3 +993,13 @@ end C18
 -- rs2lean tie
 #print axioms C18.generated_elect_sessions_eq_model
 #print axioms C18.generated_elect_sessions_covers_model
+-- ready events, lower bound (wave 2)
+#print axioms C18.the_link_is_reported_ready_on_both_nodes
+#print axioms C18.exactly_one_live_ready_session_per_peer
+#print axioms C18.without_failures_the_winner_is_reported_ready
+#print axioms C18.failures_that_spare_the_winner_keep_the_link
+#print axioms C18.winner_spared_by_failures_is_reported_ready
+-- lingering node_sessions entries (wave 2)
+#print axioms C18.lingering_entries_never_two_links
+#print axioms C18.lingering_entries_are_invisible_with_unique_nonces
+#print axioms C18.check_session_sees_lingering_entries_only_through_their_nonce
